@@ -34,7 +34,7 @@ def runWf (line : String) : String :=
   | none => "?parse"
   | some is => if Gojq.OptVM.wfCheckView is.toArray then "wf" else "not-wf"
 
-/-- stream `safe` (C08): the static hypothesis of `vm_total_wf_partial` (Props/C08VM.lean) on a dumped
+/-- stream `safe` (C08): the static hypothesis of `vm_total_wf` (Props/C08VM.lean) on a dumped
     code (`safeCheckView`, proved equal to `safeCheck` through the dump `viewS`); a rejected code is
     answered with the first pc the verifier rejects -/
 def runSafe (line : String) : String :=
@@ -42,9 +42,10 @@ def runSafe (line : String) : String :=
   match toks.mapM Gojq.SafeVM.parseDump with
   | none => "?parse"
   | some is =>
-    if Gojq.SafeVM.safeCheckView is.toArray then
-      (if Gojq.SafeVM.checkShapes2 (is.toArray.map Gojq.SafeVM.shapeV) then "safe"
-       else "not-safe2 pc=" ++ toString (Gojq.SafeVM.firstBad2 (is.toArray.map Gojq.SafeVM.shapeV)))
+    if Gojq.SafeVM.safeCheckView is.toArray then "safe"
+    else if Gojq.SafeVM.checkShapes (is.toArray.map Gojq.SafeVM.shapeV) 0 then
+      -- layer 2 (frames, closures, kinds) rejects
+      "not-safe2 pc=" ++ toString (Gojq.SafeVM.firstBad2 (is.toArray.map Gojq.SafeVM.shapeV))
     else "not-safe pc=" ++ toString (Gojq.SafeVM.firstBad (is.toArray.map Gojq.SafeVM.shapeV) 0)
 
 /-- the dump with the `[id, index]` operand of the variable instructions kept (`TailVM.viewT`) -/
